@@ -83,6 +83,17 @@ def edit_refs_and_recheck(sh, doc, rng, seed):
             r.on_delete = r.on_update if rng.random() < 0.5 else rng.choice([None, 'restrict'])
             R.on_update, R.on_delete = r.on_update, r.on_delete
         n += 1
+    order_t = [i_ for k_, i_ in d2.order if k_ == 't']
+    for R, (how, idx, col, r) in zip(db.refs, order):
+        if how != 'inline' and r.kind == '<>' and rng.random() < 0.6:
+            # the join table must follow a later change of a referenced column (name and type)
+            ti = rng.choice([r.t1, r.t2])
+            cn = (r.cols1 if ti == r.t1 else r.cols2)[0]
+            a = next(c for c in d2.tables[ti].columns if c.name == cn)
+            live = db.tables[order_t.index(ti)][cn]
+            a.type = am.ColType('plain', 'retyped_' + str(n))
+            live.type = a.type.text
+            n += 1
     if n:
         sh.count('obs.reference_edits_before_second_render', n)
         check(sh, d2, db, 'api', 'edited', PARTS, api=True)
